@@ -235,3 +235,12 @@ func mapIterKey(v ssa.Value) string {
 	}
 	return "g:iter:" + fn + "." + v.Name() + "|IDX"
 }
+
+// ghost set of keys a map iteration has produced
+func mapVisitedKey(v ssa.Value, keySort string) string {
+	fn := ""
+	if in, ok := v.(ssa.Instruction); ok && in.Parent() != nil {
+		fn = mangle(in.Parent().String())
+	}
+	return "g:vis:" + fn + "." + v.Name() + "|(Array " + keySort + " Bool)"
+}
